@@ -243,6 +243,7 @@ def worker_init() -> None:
                               if os.path.splitext(n)[1].lower().startswith(".odx") and not n.endswith(".odx-d")}
         STATE["aux_files"] = {n: z.read(n) for n in sorted(z.namelist())
                               if not os.path.splitext(n)[1].lower().startswith(".odx") and n != "index.xml"}
+    make_bad_pdx()
     build_ops()
     exc_mod.strict_mode = True
     # harness sanity: an unmutated document must load through the same code path the load operations use
@@ -253,6 +254,51 @@ def worker_init() -> None:
     mon = FlipMonitor(worker.pkg_dir(), exc_mod)
     mon.install()
     STATE["mon"] = mon
+
+
+def make_bad_pdx() -> None:
+    """A copy of the shipped PDX with one violation of the specification that strict mode reports through the
+    strictness mechanism and lenient mode downgrades (found by trying a few candidates on the tree under test)."""
+    import atexit
+    import re
+    import shutil
+    import tempfile
+
+    import odxtools
+    exc_mod = STATE["exc_mod"]
+    STATE["bad_pdx_path"] = None
+    cands = [(r"<LOWER-LIMIT>", '<LOWER-LIMIT INTERVAL-TYPE="BOGUS">'), (r"<UPPER-LIMIT>", '<UPPER-LIMIT INTERVAL-TYPE="BOGUS">'),
+             (r'IS-VISIBLE="true"', 'IS-VISIBLE="maybe"'), (r"<PHYSICAL-TYPE BASE-DATA-TYPE=\"A_UINT32\"", '<PHYSICAL-TYPE BASE-DATA-TYPE="A_BOGUS"')]
+    d = tempfile.mkdtemp(prefix="vsim-c17-")
+    owner = os.getpid()
+    atexit.register(lambda: shutil.rmtree(d, ignore_errors=True) if os.getpid() == owner else None)
+    with zipfile.ZipFile(STATE["pdx_path"]) as zin:
+        members = {n: zin.read(n) for n in zin.namelist()}
+    for ci, (pat, rep) in enumerate(cands):
+        path = os.path.join(d, f"bad{ci}.pdx")
+        done = False
+        with zipfile.ZipFile(path, "w", zipfile.ZIP_DEFLATED) as zout:
+            for n, data in members.items():
+                if not done and n.endswith(".odx-d"):
+                    text, k = re.subn(pat, rep, data.decode("utf-8"), 1)
+                    if k:
+                        data, done = text.encode("utf-8"), True
+                zout.writestr(n, data)
+        if not done:
+            continue
+        outcome = {}
+        for v in (True, False):
+            exc_mod.strict_mode = v
+            try:
+                with W.quiet():
+                    odxtools.load_pdx_file(path)
+                outcome[v] = "ok"
+            except Exception as e:  # noqa: BLE001
+                outcome[v] = exc_site(e)
+        exc_mod.strict_mode = True
+        if outcome[True] != "ok" and outcome[True].endswith("[odxraise]") and outcome[False] == "ok":
+            STATE["bad_pdx_path"] = path
+            return
 
 
 def settable_kwargs(co, decoded: Dict[str, Any]) -> Dict[str, Any]:
@@ -344,6 +390,18 @@ def build_ops() -> None:
                     else:
                         b4[k] = None
                     bad_variants.append(b4)  # out of range / over-long
+                    for kk, vv in good.items():
+                        # an unknown parameter inside a nested value (structure / field item / multiplexer case)
+                        if isinstance(vv, dict):
+                            b5 = _copy.deepcopy(good)
+                            b5[kk]["zz_unknown"] = 1
+                            bad_variants.append(b5)
+                            break
+                        if isinstance(vv, list) and vv and isinstance(vv[0], dict):
+                            b5 = _copy.deepcopy(good)
+                            b5[kk][0]["zz_unknown"] = 1
+                            bad_variants.append(b5)
+                            break
                     for b in bad_variants:
                         lst.append(["enc", lname, e["svc"], e["co"], v2j(b), rqb])
                 else:
@@ -444,6 +502,8 @@ def gen(rs: int, index: int, tier: str) -> Dict[str, Any]:
             ["--no-strict", "snoop", "PDX", "--variant", "no_such_variant"], ["snoop", "PDX", "--variant", "no_such_variant"],
             ["--no-strict", "find", "PDX", "-d", "1003"], ["--no-strict", "decode", "PDX", "-d", "zz"],
             ["--no-strict", "compare", "PDX", "-v", "nonexistent_a", "nonexistent_b"],
+            ["--no-strict", "list", "BADPDX"], ["list", "BADPDX"], ["--no-strict", "list", "BADPDX"],
+            ["--no-strict", "find", "BADPDX", "-d", "1003"], ["--no-strict", "list", "-a", "BADPDX"],
         ])
         ops.insert(rc.randint(0, len(ops)), ["cli", argv])
     # codec state objects prepared by the caller under one mode and used under another
@@ -558,7 +618,12 @@ def run_op(op: List[Any]) -> Tuple[str, Any]:
             _, lname, svc_name, co_name, kwargs_j, req_hex = op
             layer = STATE["layers"][lname]
             svc, co = c05.find_objects(layer, svc_name, co_name)
-            kwargs = j2v(kwargs_j)
+            # the client keeps its argument objects and passes the same ones again when it repeats a call
+            cache = STATE.setdefault("kw_cache", {})
+            ck = op_key(op)
+            if ck not in cache:
+                cache[ck] = j2v(kwargs_j)
+            kwargs = cache[ck]
             if req_hex is not None:
                 res = co.encode(coded_request=bytes.fromhex(req_hex), **kwargs)
             else:
@@ -622,7 +687,8 @@ def run_op(op: List[Any]) -> Tuple[str, Any]:
             return "ok", db_summary(kept[0])
         if kind == "cli":
             import odxtools.cli.main as cli_main
-            argv = ["odxtools"] + [STATE["pdx_path"] if a == "PDX" else a for a in op[1]]
+            argv = ["odxtools"] + [STATE["pdx_path"] if a == "PDX" else
+                                   ((STATE.get("bad_pdx_path") or STATE["pdx_path"]) if a == "BADPDX" else a) for a in op[1]]
             old_argv = sys.argv
             sys.argv = argv
             try:
@@ -730,6 +796,7 @@ def execute(trace: Dict[str, Any]) -> Dict[str, Any]:
     mon.flips_fired = 0
     mon.odxraise_calls = {True: 0, False: 0}
     ops = trace["ops"]
+    STATE["kw_cache"] = {}
     log.ev("sim", "config", {"kind": trace["kind"], "n_ops": len(ops), "n_flips": len(trace.get("flips", []))})
     differs = False
     env = trace.get("env")
@@ -826,10 +893,18 @@ def execute(trace: Dict[str, Any]) -> Dict[str, Any]:
                             "detail": {"op": op, "strict": ref[k][True][:300], "lenient": ref[k][False][:300],
                                        "strict_site": strict_site_detail}})
                     # O4: an error raised by the strictness mechanism is downgraded
-                    if st[0] == "exc" and st[1]["site"].endswith("[odxraise]") and sl[0] == "exc" and \
+                    if op[0] != "cli" and st[0] == "exc" and st[1]["site"].endswith("[odxraise]") and sl[0] == "exc" and \
                             sl[1]["site"] == st[1]["site"]:
                         violations.append({"oracle": "C17.O4-downgrade", "sig": {"site": st[1]["site"]},
                                            "detail": {"op": op, "strict": st[1], "lenient": sl[1]}})
+                    # O4 for the command line: `odxtools --no-strict <tool>` runs the tool in lenient mode, so it
+                    # must not end with an error raised by the strictness mechanism
+                    if op[0] == "cli" and "--no-strict" in op[1]:
+                        for v in (True, False):
+                            o_ = json.loads(ref[k][v])
+                            if o_[0] == "exc" and str(o_[1].get("site", "")).endswith("[odxraise]"):
+                                violations.append({"oracle": "C17.O4-downgrade", "sig": {"site": "cli:" + o_[1]["site"]},
+                                                   "detail": {"op": op, "flag_before_the_call": v, "outcome": o_[1]}})
                 # phase B: the history, with the controller flipping the flag
                 v = bool(trace.get("initial", True))
                 exc_mod.strict_mode = v
@@ -858,6 +933,10 @@ def execute(trace: Dict[str, Any]) -> Dict[str, Any]:
                             "detail": {"op": op[:3], "flag_before": v0, "flag_after": bool(exc_mod.strict_mode), "index": i}})
                         exc_mod.strict_mode = v0
                     changed = fired > 0 and (bool(exc_mod.strict_mode) != v0 or len(mid) > 1)
+                    if op[0] == "cli" and fired > 0:
+                        # the command line front end assigns the flag itself (and restores it afterwards): a flip by
+                        # the controller while the tool runs changes the mode the tool sees whatever its value
+                        changed = True
                     if fired:
                         faults["flip_inside_operation"] = faults.get("flip_inside_operation", 0) + fired
                         log.ev("controller", "flip-inside", {"op": i, "fired": fired})
